@@ -262,7 +262,8 @@ class ext_makedirs:
 
     def ensures(p, exist_ok):
         return (len(WORLD.made) == len(old.WORLD.made) + 1 and WORLD.made[-1] == p and
-                forall(0, len(old.WORLD.made), lambda i: WORLD.made[i] == old.WORLD.made[i]))
+                forall(0, len(old.WORLD.made), lambda i: WORLD.made[i] == old.WORLD.made[i]) and
+                exists(0, len(WORLD.made), lambda i: WORLD.made[i] == p))
     modifies = ["items(WORLD.made)"]
 
 
